@@ -13,9 +13,16 @@ import (
 // handleCEA handles Capabilities-Exchange-Answer messages.
 func handleCEA(sm *StateMachine, errc chan error) diam.HandlerFunc {
 	return func(c diam.Conn, m *diam.Message) {
+		if _, ok := smpeer.FromContext(c.Context()); ok {
+			// The handshake is complete on this connection, ignore further CEAs.
+			return
+		}
 		cea := new(smparser.CEA)
 		if err := cea.Parse(m, smparser.Client); err != nil {
-			errc <- err
+			select {
+			case errc <- err: // errc is buffered, the first failure is kept
+			default:
+			}
 			return
 		}
 		meta := smpeer.FromCEA(cea)
